@@ -49,8 +49,15 @@ pub fn path_values(f: Family) -> Vec<Vec<u8>> {
 	let mut v: Vec<&str> = vec!["", "/", "a", "%61", "/a", "/%61", "/a/.", "//a", "a:b", "./a:b", "a/../b:c", "/.//a", "1:b", ":", "a/b/c/d/e/f/g", "//", "/a:b"];
 	if f == Family::Iri {
 		v.push("é/é:é");
+		v.push("é:b");
 	}
 	v.into_iter().map(domains::b).collect()
+}
+
+/// Buffer paths beyond PATH(2): shapes the library itself writes ("/.//a" after removing an
+/// authority in front of "//a") and their near misses.
+pub fn extra_buffer_paths() -> Vec<Vec<u8>> {
+	["/.//a", "/.//", "/./a", "/..//a", ".//a", "./a:b", "/.//a:b"].iter().map(|s| domains::b(s)).collect()
 }
 
 macro_rules! setter_values {
@@ -114,7 +121,7 @@ macro_rules! sweep {
 pub fn run(ctx: &Ctx) -> Report {
 	let refs = Refs::new(&ctx.root);
 	let mut total = Report::new();
-	total.rule = "buffers: compositions scheme x authority x PATH(2) x query x fragment (queries/fragments containing delimiters, tails of 0/1/40/600 bytes) valid per the reference DFA and re-splitting to the chosen components; x every value of every setter incl. removal (longer, equal, shorter, values needing disambiguation), on RiRefBuf and (when the buffer has a scheme) RiBuf; non-trivial = distinct (buffer, setter value, buffer type)".into();
+	total.rule = "buffers: compositions scheme x authority x (PATH(2) + shielded shapes such as /.//a) x query x fragment (queries/fragments containing delimiters, tails of 0/1/40/600 bytes) valid per the reference DFA and re-splitting to the chosen components; x every value of every setter incl. removal (longer, equal, shorter, values needing disambiguation), on RiRefBuf and (when the buffer has a scheme) RiBuf; non-trivial = distinct (buffer, setter value, buffer type)".into();
 	let level = ctx.pick(0u8, 1u8);
 	for f in Family::active() {
 		let fr = FamRefs::new(refs, f);
@@ -123,6 +130,9 @@ pub fn run(ctx: &Ctx) -> Report {
 		for extra in ["1:b", ":", "1:b/c", ":/", "/1:b"] {
 			paths.push(domains::b(extra));
 		}
+		paths.extend(extra_buffer_paths());
+		paths.sort();
+		paths.dedup();
 		let dom: Vec<(Vec<u8>, syntax::Parts)> = domains::references(&domains::scheme_options(1), &auth_small(f, level), &paths, &tails_q(f, level), &tails_f(f, level))
 			.into_iter()
 			.filter(|(t, _)| fr.valid(Kind::RiRef, t))
